@@ -20,11 +20,39 @@ Theorem C05_static_transparent : forall cls invs s ret, step cls invs s (OStatic
 Proof. exact static_transparent. Qed.
 Theorem C05_disabled_inert : forall cls invs s o s1 r,
   s_enabled s = false -> step cls invs s o = (s1, r) ->
-  match o with OCall _ true _ => r = Exc "ValueError" | _ => completed r = true end.
+  match o with OCall _ true _ => r = Exc "ValueError" | OCallB _ _ _ => r = Exc "ValueError" \/ completed r = true | _ => completed r = true end.
 Proof. exact disabled_inert. Qed.
 Print Assumptions C05_not_entered_when_broken.
 Print Assumptions C05_no_rollback.
 Print Assumptions C05_disabled_inert.
+
+(* nested calls through self and changes of the state that no __setattr__ sees (in-place changes, writes to __dict__) *)
+Theorem C05_completed_implies_inv_nested : forall cls invs s body raises ret s1 r,
+  s_enabled s = true -> step cls invs s (OCallB body raises ret) = (s1, r) -> completed r = true -> all_hold cls invs s1.
+Proof. exact callb_completed_implies_inv. Qed.
+Theorem C05_inner_call_completed_implies_inv : forall cls invs s items s1,
+  s_enabled s = true -> inner_call cls invs s items false = (s1, None) -> all_hold cls invs s1.
+Proof. exact inner_completed_implies_inv. Qed.
+Theorem C05_inner_call_not_entered_when_broken : forall cls invs s items rs e t,
+  check cls invs s = Some e -> run_body cls invs s (BInner items rs :: t) = (s, Some e).
+Proof. exact inner_not_entered_when_broken. Qed.
+Theorem C05_nested_not_entered_when_broken : forall cls invs s body raises ret e,
+  check cls invs s = Some e -> step cls invs s (OCallB body raises ret) = (s, e).
+Proof. exact callb_not_entered_when_broken. Qed.
+Print Assumptions C05_completed_implies_inv_nested.
+Print Assumptions C05_inner_call_completed_implies_inv.
+Example C05_inner_violation_not_repairable :
+  snd (step [] [{| i_form := IExplicit; i_pred := PGe "x" 0 |}] {| s_inst := [("x", VInt 1)]; s_enabled := true |}
+            (OCallB [BInner [(true, ("x", VInt (-1)))] false; BRaw "x" (VInt 1)] false 7)) = InvError.
+Proof. exact inner_violation_not_repairable. Qed.
+
+(* refuted at full strength ("an operation that leaves an invariant false raises the invariant-violation error"): a method that
+   raises an exception of its own is not validated on the way out, so a store that no __setattr__ saw escapes under that exception
+   (finding C05-F2; the same history runs against the real class in corpus/C05/unseen-store-then-raise.json) *)
+Theorem C05_exceptional_exit_unvalidated_refuted :
+  step [] [{| i_form := IExplicit; i_pred := PLe "x" 9 |}] {| s_inst := [("x", VInt 5)]; s_enabled := true |} (OCallB [BRaw "x" (VInt 10)] true 2)
+  = ({| s_inst := [("x", VInt 10)]; s_enabled := true |}, Exc "ValueError").
+Proof. reflexivity. Qed.
 
 (* the tie to the source: the statements of InvariantedClass regenerated from deal/_runtime/_invariant.py on every run
    (Gen/Invariant.v), run by Sem/InvCode.v, are the state machine the theorems above are about *)
